@@ -151,6 +151,7 @@ def h_sequence(cx, n, perm, ops, depth, tier, rot=0, width=5):
         return "con%d" % counter[0]
 
     check_state(cx, net, ids, model, "init")
+    probe_x = []
     with warnings.catch_warnings(record=True) as wlist:
         warnings.simplefilter("always")
         for step, op in enumerate(ops):
@@ -240,6 +241,10 @@ def h_sequence(cx, n, perm, ops, depth, tier, rot=0, width=5):
                     cx.check(lab + ":unknown_station_raises", True)
                 cx.check(lab + ":unknown_station_leaves_state", (list(net.constraint_index), len(net.magnitudes)) == before)
             check_state(cx, net, ids, model, lab)
+            # by-name queries between the operations (not only on the final network): what an earlier query left behind in the
+            # network must not leak into a later one
+            if model:
+                probe(cx, net, ids, model, angles, lab, probe_x)
     # registration guard
     if model:
         try:
@@ -255,6 +260,31 @@ def h_sequence(cx, n, perm, ops, depth, tier, rot=0, width=5):
     # subset / ordering semantics of constraint_current on the final network
     if model:
         query(cx, net, ids, model, angles)
+
+
+def probe(cx, net, ids, model, angles, lab, px):
+    """one-period by-name queries for the first and the last constraint of the model"""
+    import numpy as np
+
+    n = len(ids)
+    if not px:
+        px.extend(cx.real("px%d" % j, lo=0, hi=32) for j in range(n))
+    M = np.empty((n, 1), dtype=object if cx.mode == "sym" else float)
+    for j in range(n):
+        M[j, 0] = px[j]
+    cs = [(math.cos(math.radians(a)), math.sin(math.radians(a))) for a in angles[:n]]
+    names = [r[0] for r in model]
+    for i in sorted({0, len(model) - 1}):
+        cc = net.constraint_current(M, constraints=[names[i]])
+        ok_shape = tuple(cc.shape) == (1, 1)
+        cx.check(lab + ":probe:shape", ok_shape, note=str(cc.shape))
+        if not ok_shape:
+            continue
+        re = sum(model[i][1].get(ids[j], 0) * px[j] * cs[j][0] for j in range(n))
+        im = sum(model[i][1].get(ids[j], 0) * px[j] * cs[j][1] for j in range(n))
+        band = 1e-9 * 32 * 16 * 4 * 4
+        z = cc[0, 0]
+        cx.check(lab + ":probe:by_name", and_(le(z.real - re, band), le(re - z.real, band), le(z.imag - im, band), le(im - z.imag, band)))
 
 
 def query(cx, net, ids, model, angles):
